@@ -455,6 +455,24 @@ def main(tier, seed, replay=None):
             if a.dtype != b.dtype or not np.array_equal(a, b, equal_nan=True) or not np.array_equal(am, bm, equal_nan=True):
                 problems.append(dict(what="parallel log_likelihood / mpe differs from sequential on a float64 batch with missing entries", n_jobs=2,
                                      dtypes=[str(a.dtype), str(b.dtype)]))
+        # in-place operation on batches that are not row-major (column-major, every second row of a taller array): the caller's
+        # array is the result, on the parallel path as on the sequential one
+        with np.errstate(all="ignore"):
+            tall = np.full((2 * len(X), X.shape[1]), np.nan, dtype=np.float32); tall[::2] = X
+            for lay, mk in (("F-order", lambda: np.asfortranarray(X.copy())), ("every-second-row view", lambda: tall.copy()[::2])):
+                try:
+                    a_ = mk(); ra = mpe(root, a_, inplace=True, n_jobs=0)
+                    b_ = mk(); rb = mpe(root, b_, inplace=True, n_jobs=2)
+                    c_ = mk(); rc_ = sample(root, c_, inplace=True, n_jobs=2)
+                    dist["parallel_runs"] += 2
+                    if not np.array_equal(a_, b_, equal_nan=True) or not np.array_equal(np.asarray(rb), b_, equal_nan=True):
+                        problems.append(dict(what=f"parallel mpe(inplace=True) on a {lay} batch differs from sequential: the caller's array is not the completed batch",
+                                             n_jobs=2, unfilled_in_callers_array=int(np.isnan(b_[:, scope]).sum())))
+                    if np.isnan(c_[:, scope]).any() or not np.array_equal(c_[obs], X[obs]):
+                        problems.append(dict(what=f"parallel sample(inplace=True) on a {lay} batch leaves a missing cell unfilled in the caller's array or changes evidence",
+                                             n_jobs=2, unfilled=int(np.isnan(c_[:, scope]).sum())))
+                except Exception as e:
+                    problems.append(dict(what=f"in-place query on a {lay} batch raised: differs from sequential", error=f"{type(e).__name__}: {e}"))
         cases.append(dict(tag=tag, tab=tab, layers=layers_impl, problems=problems))
         dist[tag] += 1; dist["nodes"] += len(tab.nodes)
     rep.cov["input_distribution"] = dist
